@@ -179,6 +179,7 @@ class CheckConvergence(Contract):
     name = 'CheckConvergence.check_convergence'
     target = (CC, 'CheckConvergence.check_convergence')
     label = 'proved'
+    special_floats = True  # the native cross-check also draws nan / +-inf / +-0.0 for residual and tolerances (bounded side check)
 
     def instances(self, tier):
         return [dict(e_tol=False), dict(e_tol=True), dict(e_tol=True, increment_unset=True)]
@@ -274,4 +275,10 @@ class CheckIterationStatus(CheckConvergence):
         yield 'canary:done_unchanged', Iff(st.S.status.done, old['S.status.done'][1])
 
 
-CONTRACTS = [ComputeResidual, ComputeResidualIMEX, ComputeResidualMass, CheckConvergence, CheckIterationStatus]
+def _it_check_under_c03():
+    from contracts.C07_block import ItCheck
+
+    return type('ItCheck_C03', (ItCheck,), dict(prop='C03'))
+
+
+CONTRACTS = [ComputeResidual, ComputeResidualIMEX, ComputeResidualMass, CheckConvergence, CheckIterationStatus, _it_check_under_c03()]
